@@ -14,7 +14,7 @@ CHECKS = {
  "C05": ("exploration",
          "model-based property testing: type-directed expression generator vs. an independent arbitrary-precision reference evaluator, two printings (minimal/full parentheses), shrinking via proptest",
          "Random search over expression trees to depth 6 against a reference evaluator written from the language description; value, size and error/no-error are compared for every expression in both printings. Exploration of an infinite space: finds wrong operators, precedence, sizes and encodings with high probability, proves nothing about unexplored trees.",
-         "The precedence table is the pinned one (no other documentation exists); numeric value of strings whose first byte is >= 0x80 is not asserted; ascii() of non-ASCII characters follows tests/string_encoding/ok.asm; trusted: num-bigint +,-,*,divrem, comparison, unsigned bit ops.",
+         "The precedence table is the pinned one (no other documentation exists); the numeric value of a string is the unsigned number its encoded bytes spell; inverted slice bounds are errors also when inverted by one; ascii() of non-ASCII characters follows tests/string_encoding/ok.asm; trusted: num-bigint +,-,*,divrem, comparison, unsigned bit ops.",
          "6/C05"),
  "C01": ("exploration",
          "model-based property testing: generated instruction sets x generated programs vs. an independent reference assembler (structural matcher + layout + expression model), shrinking via proptest choice tape",
@@ -23,7 +23,7 @@ CHECKS = {
          "6/C01"),
  "C02": ("exploration",
          "property-based testing with a certificate oracle: the assembler's claimed layout (sizes from output.spans) is re-derived and every instruction re-resolved with the final symbol values by the reference matcher/evaluator",
-         "Random search over cascading instruction sets/programs x iteration budgets x both optimisation switches; every success is checked to be a genuine fixed point (independent of which fixed point was found); half of the cases also carry a macro rule `blkq => asm {...}` over the cascading set, certified by enumerating the size assignments of the block's instructions against the hand-inlined program. Exploration: budgets and programs are sampled (thorough runs all 15 budgets x 4 switch combinations per program).",
+         "Random search over cascading instruction sets/programs x iteration budgets x both optimisation switches; every success is checked to be a genuine fixed point (independent of which fixed point was found); half of the cases also carry a macro rule `blkq => asm {...}` over the cascading set, certified by enumerating the size assignments of the block's instructions against the hand-inlined program. Directives whose amount depends on the layout itself are certified through the position claimed for the next item. Exploration: budgets and programs are sampled (thorough runs all 15 budgets x 4 switch combinations per program).",
          "Span order = item order (checked); the reference matcher/evaluator as in C01.",
          "6/C02"),
  "C10": ("exploration",
@@ -34,7 +34,7 @@ CHECKS = {
  "C11": ("exploration",
          "exhaustive enumeration of output lengths x independent per-format decoders (round trip), plus proptest-generated multi-block programs",
          "Every single-block output length 0..4096 bits (quick: 0..520 and all boundary residues) with random, all-ones and all-zeros content is formatted in 19 format spellings and decoded by an independent decoder per format; multi-block outputs are sampled. Within the enumerated lengths the bit-carrying behaviour of each format is decided; contents are sampled.",
-         "Decoders written from each format's public definition; Intel HEX block starts restricted to address-unit boundaries (all the format can express); outputs above 4096 bits (e.g. 16-bit Intel HEX address wrap) not explored.",
+         "Decoders written from each format's public definition; written ranges may start at any bit offset (banks with 1/2/4-bit addresses): a format has to widen a range to its own granule; outputs above 4096 bits (e.g. 16-bit Intel HEX address wrap) not explored.",
          "6/C11"),
  "C06": ("exploration",
          "model-based property testing of bank layouts (reference layout engine) + an invariant monitor (no overlap, inside bank window, zero gaps, length) on every successful assembly of the bank, instruction, cascade and corpus generators",
@@ -49,17 +49,17 @@ CHECKS = {
  "C12": ("exploration",
          "model-based property testing: generated multi-bank / multi-file programs, listings parsed by an independent parser per format and compared with the reference layout, the output bits and the generator's own record of where each item was written in the source",
          "Random search over programs x listing parameters (annotated base 2..128 x group 1..9, tcgame, addrspan, symbols, mesen-mlb); every row's position, address, digits and source text/location and every symbol value are decided against the reference. Exploration of a sampled space.",
-         "Expected rows come from the reference assembler (kept equal to the assembler's spans by C01/C06); Mesen offsets asserted only for 8-bit banks at file offset >= 0x10.",
+         "Expected rows come from the reference assembler (kept equal to the assembler's spans by C01/C06); Mesen offsets asserted for byte-aligned labels of banks of any address unit at file offset >= 0x10.",
          "6/C12"),
  "C13": ("exploration",
          "property-based fuzzing with a validity oracle on every diagnostic (byte range in a known file on character boundaries; printed line:column recomputed independently) + single-fault injection with a location oracle",
          "Part A checks every message of every failing run of the mutated-corpus stream (non-ASCII, CR LF, truncated UTF-8) for location validity and for agreement between the printed line:column and the byte range; part B injects one fault of each kind at sampled positions of generated valid programs spread over files and demands that the first error lies on the faulty line of the right file. Exploration.",
-         "Uses hook H1 (report message list). Malformed-directive faults are syntax errors not covered by the reference model; the missing-operand family is a listed known finding.",
+         "Uses hook H1 (report message list). Malformed-directive, built-in-argument and asm-block faults are not covered by the reference model (their location is asserted directly); the missing-operand family and the ranges of diagnostics inside substituted asm-block text are listed known findings.",
          "6/C13"),
  "C14": ("exploration",
          "model-based property testing of inclusion graphs and path spellings against a reference path/inclusion model on an in-memory file server, a sampled replay on the real file system with a sentinel outside the project, and exhaustive enumeration of inclusion-function ranges",
          "Random search over directory trees, inclusion graphs (chains, diamonds, cycles, #once) and path spellings incl. hostile ones; the expected marker sequence or rejection is decided by the reference model; one case in twelve is also run by the real binary in a scratch project with a sentinel above it. The (function, file length, start, length) table of incbin/incbinstr/inchexstr is enumerated completely for lengths 0..12.",
-         "The precedence between #once and cycle detection for a #once file that includes itself is not fixed by the statement and is excluded (counted); empty ranges, start = size and empty files are run but not asserted.",
+         "The precedence between #once and cycle detection for a #once file that includes itself is not fixed by the statement and is excluded (counted); empty ranges and start = size are run but not asserted.",
          "6/C14"),
  "C15": ("exploration",
          "model-based property testing of scope trees: every reference is spelled in one of its valid ways from its point of use and resolved by a reference scope model; plus two metamorphic variants (address-free constants moved; runs of non-global items wrapped into selected #if arms); thorough tier adds a libFuzzer phase on the same property code",
@@ -69,17 +69,17 @@ CHECKS = {
  "C16": ("exploration",
          "model-based property testing of conditional-assembly trees x define assignments against a reference least-fixed-point world selector feeding the reference assembler; defines passed both through the library and through the driver's -d options",
          "Random search over #if/#elif/#else trees to depth 4 (conditions over constants declared before, after and inside other arms, hierarchical names) x 0-4 defines; the one live world is computed by the reference and assembled by the reference assembler; accept/reject, bits and symbols must match, and library and command-line ways of passing defines must agree. Exploration.",
-         "Arms declare only global symbols or only children of the global label preceding the chain (the re-parenting of later nested declarations is a listed known finding with a directed probe); defines name constants or nothing.",
+         "Arms declare only global symbols or only children of the global label preceding the chain (the re-parenting of later nested declarations is a listed known finding with a directed probe); defines name constants, labels (an error) or nothing; a #once file included from inside an arm may be refused with a diagnostic naming #once.",
          "6/C16"),
  "C17": ("exploration",
          "metamorphic property testing: generated macro rules (asm blocks) vs. the generator's own hand-inlined program, generated functions vs. textual substitution and the reference evaluator, and recursion probes at depths around and far beyond the limit",
          "Random search over macro rules (textual {param} substitution with expression arguments, block-local labels, forward global labels, sub-rule operands, nesting to 3) and over #fn definitions; the macro program must assemble to the bits of the inlined program whenever the latter assembles; calls must equal substituted bodies and the reference value; recursion at depth <= 10 must succeed and at depth >= 100 must be an error (a dying worker is a violation). Exploration.",
-         "Base instruction sets for the macro part are size-static and carry no assert constraints (an assert on a forward label inside a block is a listed known finding with a directed probe); nothing is asserted when the hand-inlined program is itself rejected.",
+         "Base instruction sets for the macro part are size-static and carry no assert constraints (an assert on a forward label inside a block, a block label handed to a nested macro and labelalign inside blocks are listed known findings matched by input predicates); nothing is asserted when the hand-inlined program is itself rejected.",
          "6/C17"),
  "C19": ("fault_enumeration",
          "directed magnitude families run through the real binary in its own process under CPU / address-space / stack limits, with an outcome oracle (exit 0, or exit 1 with an error diagnostic; any signal, panic exit, CPU-limit or allocation abort is a violation)",
-         "Complete enumeration of 51 directed families (20 nesting/length, 31 numeric) x their magnitude lists (nesting 1..10^5, numeric 2^k-1/2^k/2^k+1 for k up to 65, plus 8*10^8, 6.4*10^9, -1, 0, 4*10^8, 8*10^8-1) against the real binary built with overflow checks (thorough: also the stock release build). Decides crash / hang / abort versus diagnosis for every listed (family, magnitude); nothing is claimed beyond the listed families.",
-         "RLIMIT_CPU 10 s (30 s thorough), RLIMIT_AS 4 GiB, default 8 MiB stack; for the two listed magnitudes inside the supported range (4*10^8, 8*10^8-1) only the time budget is waived (proportional work is not a hang); stack overflows of very long operator chains, #if nesting and #elif chains are listed known findings.",
+         "Complete enumeration of 69 directed families (29 nesting/length/recursion-cycle, 40 numeric) x their magnitude lists (nesting 1..10^5, numeric 2^k-1/2^k/2^k+1 for k up to 65, plus 8*10^8, 6.4*10^9, -1, 0, 4*10^8, 8*10^8-1) against the real binary built with overflow checks (thorough: also the stock release build). Decides crash / hang / abort versus diagnosis for every listed (family, magnitude); nothing is claimed beyond the listed families.",
+         "RLIMIT_CPU 10 s (30 s thorough), RLIMIT_AS 4 GiB, default 8 MiB stack; for the two listed magnitudes inside the supported range (4*10^8, 8*10^8-1) only the time budget is waived (proportional work is not a hang); stack overflows of very long operator chains, #if nesting, #elif chains and chains of distinct sub-rules are listed known findings.",
          "6/C19"),
  "C18": ("exploration",
          "model-based property testing of command lines: the option grammar and format table are parsed from src/usage_help.md at run time; the driver's accept/reject decision, written files and their contents are compared with the model; a sample goes through the real binary",
@@ -88,7 +88,7 @@ CHECKS = {
          "6/C18"),
  "C08": ("exploration",
          "metamorphic/differential property testing: the same job under the four optimisation-switch combinations x five iteration budgets must agree on success, bits and symbols",
-         "Differential run of the real code against itself over generated (size-static and cascading) programs, the whole test corpus and token-mutated corpus programs. No model is trusted; exploration of a sampled program space.",
+         "Differential run of the real code against itself over generated (size-static and cascading) programs, feature-mix programs, the whole test corpus and token-mutated corpus programs, some with command-line defines. No model is trusted; exploration of a sampled program space.",
          "AssemblyOptions fields stand for the command-line flags; two listed known findings (budget-starved unoptimised resolver; blank inside the leading literal run of a rule) are matched by narrow input+outcome signatures.",
          "6/C08"),
  "C09": ("exploration",
